@@ -2,7 +2,7 @@
    (a computation over the finite name sets) to statements about ALL register files and
    ALL values. *)
 From Coq Require Import Lia.
-From RM Require Import C18.Check Gen.ContextTables.
+From RM Require Import C18.Check C18.Format Gen.ContextTables.
 Open Scope Z_scope.
 
 (* ------------------------------------------------------------------ small facts *)
@@ -193,6 +193,7 @@ Record ctx_facts (c : ctx_table) : Prop := {
   f_md_get : plain_var (ct_md_get c) v_ga = true;
   f_md_valid : plain_bvar (ct_md_valid c) v_iv = true;
   f_md_filter : plain_bvar (ct_md_filter c) v_iv = true;
+  f_width : ct_width c = 32 \/ ct_width c = 64;
   f_cmp : ct_memo_cmp c = 0;
   f_lower : forall n, In n (accepted c) -> has_upper n = false
 }.
@@ -214,6 +215,7 @@ Proof.
   apply app_eq_nil in H. destruct H as [D1 H].
   apply app_eq_nil in H. destruct H as [D2 H].
   apply app_eq_nil in H. destruct H as [D3 H].
+  apply app_eq_nil in H. destruct H as [D4 H].
   apply app_eq_nil in H. destruct H as [H12 H13].
   constructor.
   - exact (diag_nil _ _ _ _ H1).
@@ -230,6 +232,8 @@ Proof.
   - exact (diag_nil _ _ _ _ D1 _ (or_introl eq_refl)).
   - exact (diag_nil _ _ _ _ D2 _ (or_introl eq_refl)).
   - exact (diag_nil _ _ _ _ D3 _ (or_introl eq_refl)).
+  - pose proof (diag_nil _ _ _ _ D4 _ (or_introl eq_refl)) as X. cbv beta in X.
+    apply orb_true_iff in X. destruct X as [X|X]; apply Z.eqb_eq in X; [left | right]; exact X.
   - apply Z.eqb_eq. exact (diag_nil _ _ _ _ H12 _ (or_introl eq_refl)).
   - intros n Hn. pose proof (diag_nil _ _ _ _ H13 n Hn) as X. apply negb_true_iff in X. exact X.
 Qed.
@@ -458,6 +462,36 @@ Lemma case_variant_not_accepted : forall n m, In m (accepted c) -> n <> m -> map
 Proof.
   intros n m Hm Hne Hl Hn. apply Hne.
   rewrite <- (no_upper_lower n (f_lower c F n Hn)), <- (no_upper_lower m (f_lower c F m Hm)). exact Hl.
+Qed.
+
+(* the unchecked accessors know exactly the accepted names *)
+Lemma unchecked_unknown_panics : forall rf n, ~ In n (accepted c) -> get_always c rf n = Panic 1.
+Proof.
+  intros rf n H. unfold get_always. destruct (find_arm n (ct_get c)) as [l|] eqn:E; [|reflexivity].
+  exfalso. apply H. pose proof (find_arm_In _ _ _ _ E) as I.
+  pose proof (f_tables c F n (in_or_app _ _ _ (or_introl I))) as T. unfold ok_tables in T. rewrite E in T.
+  destruct (find_arm n (ct_set c)) as [b|] eqn:S; [|discriminate]. exact (find_arm_In _ _ _ _ S).
+Qed.
+
+(* format_register renders the value the unchecked read returns: "0x" + lower-case hex digits that
+   denote it, at least 2*size of them, exactly 2*size when the value fits the Register type *)
+Lemma format_register_spec : forall rf n,
+  (In n (accepted c) ->
+     exists s, format_register c rf n = Ret (48 :: 120 :: s) /\
+       (0 <= rf_get rf (loc_of c n) ->
+          hex_val s = rf_get rf (loc_of c n) /\ (Z.to_nat (register_size c * 2) <= length s)%nat /\
+          (rf_get rf (loc_of c n) < 2 ^ ct_width c -> length s = Z.to_nat (register_size c * 2)))) /\
+  (~ In n (accepted c) -> format_register c rf n = Panic 1).
+Proof.
+  intros rf n. split.
+  - intro Hn. unfold format_register. rewrite (get_always_accepted rf n Hn). cbn [obind]. unfold format_value.
+    eexists. split; [reflexivity|]. intro Hv.
+    destruct (hex_val_min (Z.to_nat (register_size c * 2)) _ Hv) as [A [B C]].
+    split; [exact A|]. split; [exact B|]. intro Hlt. apply C.
+    + unfold register_size. destruct (f_width c F) as [W|W]; rewrite W; vm_compute; lia.
+    + eapply Z.lt_le_trans; [exact Hlt|]. unfold register_size.
+      destruct (f_width c F) as [W|W]; rewrite W; vm_compute; discriminate.
+  - intro Hn. unfold format_register. rewrite (unchecked_unknown_panics rf n Hn). reflexivity.
 Qed.
 
 (* MinidumpContext dispatch: the generated arms forward to the CpuContext methods *)
